@@ -63,6 +63,14 @@ func init() {
 			lookups = []any{}
 		}
 		res["lookups"] = lookups
+		// introducer option helpers: the values stored under ihN / iexpN / itagN (the numbers come from the specification)
+		intro := []any{}
+		for _, n := range a.List("intronums") {
+			num := int(n.(float64))
+			intro = append(intro, map[string]any{"num": num, "ih": ints(ra.IntroducerHashString(num)), "iexp": ints(ra.IntroducerExpirationString(num)),
+				"itag": ints(ra.IntroducerTagString(num))})
+		}
+		res["intro"] = intro
 		res["hoststring"] = ints(ra.HostString())
 		res["portstring"] = ints(ra.PortString())
 		return res
